@@ -1880,8 +1880,11 @@ static Chunk *output_comment_c(Chunk *first)
       cmt.cont_text = options::cmt_star_cont() ? " * " : "   ";
       LOG_CONTTEXT();
 
+      // only a terminated comment can be converted: the closing '*' '/' is cut off below
       bool replace_comment = (  options::cmt_trailing_single_line_c_to_cpp()
                              && first->IsLastChunkOnLine()
+                             && first->Len() >= 4
+                             && first->GetStr().startswith("*/", first->Len() - 2)
                              && first->Str().at(2) != '*');
 
       if (  replace_comment
